@@ -444,6 +444,7 @@ type FuncSpec struct {
 	Requires  []*Clause
 	Ensures   []*Clause
 	Flows     []FlowSpec
+	AtCalls   []*AtCall // call-site clauses: asserted at every call of the named callee inside this function
 	Receives  []*Clause // channel invariants: "receives <chan>: P($msg)" (assumed when receiving from <chan>)
 	Callback  bool      // function-type contract of a user callback: its effects are not attributed to the caller's frame
 	Defines   []*Clause // naming clauses: assumed at call sites, not checked (they only introduce a name for the result)
@@ -460,6 +461,14 @@ type FuncSpec struct {
 	Implements string          // name of a function-type contract ("type ModifyFn") this function must also satisfy
 	ftSig     *types.Signature // contracts of named function types
 	ftParams  []string
+}
+
+// AtCall is "atcall <callee> name {props}: expr": at every call of <callee> (matched by function name) in the body,
+// expr must hold; $arg0.. are the call's arguments (receiver first for methods), old(e) is the function's entry state.
+type AtCall struct {
+	Callee string
+	Clause *Clause
+	Used   bool
 }
 
 type FlowSpec struct {
@@ -566,7 +575,7 @@ func parseModifies(rest, where string) ([]*SExpr, error) {
 
 var specKeywords = map[string]bool{"func": true, "props": true, "requires": true, "ensures": true, "modifies": true,
 	"loop": true, "invariant": true, "decreases": true, "step": true, "spec": true, "axiom": true, "lemma": true, "trusted": true,
-	"pure": true, "end": true, "allocates": true, "maypanic": true, "ghost": true, "implements": true, "defines": true, "receives": true, "callback": true, "onlyflows": true}
+	"pure": true, "end": true, "allocates": true, "maypanic": true, "ghost": true, "implements": true, "defines": true, "receives": true, "callback": true, "onlyflows": true, "atcall": true}
 
 // parseSpecFile reads one verif_contracts.go file.
 func parseSpecFile(path, pkg string) (*SpecFile, error) {
@@ -694,6 +703,16 @@ func parseSpecFile(path, pkg string) (*SpecFile, error) {
 				fl.Props = strings.FieldsFunc(strings.Trim(strings.Join(f[2:], " "), "{}"), func(r rune) bool { return r == ',' || r == ' ' })
 			}
 			curF.Flows = append(curF.Flows, fl)
+		case "atcall":
+			f := strings.SplitN(rest, " ", 2)
+			if curF == nil || len(f) < 2 {
+				return nil, fmt.Errorf("%s: expected 'atcall <callee> name {props}: expr'", l.where)
+			}
+			c, err := parseClause("atcall", strings.TrimSpace(f[1]), l.where, curF.Props)
+			if err != nil {
+				return nil, err
+			}
+			curF.AtCalls = append(curF.AtCalls, &AtCall{Callee: f[0], Clause: c})
 		case "receives":
 			if curF == nil {
 				return nil, fmt.Errorf("%s: receives outside func", l.where)
